@@ -158,14 +158,16 @@ def run(ctx, monitors):
 
     # ---- ... and Apalache: lemmas + 64-bit boundary witnesses (one SMT call per group of classes)
     if q:
-        # quick: the classes that sit on the guard / the boundaries always, 4 more chosen by the seed; one call
+        # quick: the classes that sit on the guard / the boundaries always, 4 more chosen by the seed
         rest = sorted(c for c in CLASSES if c not in QUICK_CORE)
         extra = [rest[(ctx.seed * 7 + 11 * i) % len(rest)] for i in range(4)]
-        groups = [QUICK_CORE + sorted(set(extra))]
+        chosen = QUICK_CORE + sorted(set(extra))
         seeds = [ctx.seed]
     else:
-        groups = [[c for c in CLASSES if c.startswith("R_")], [c for c in CLASSES if c.startswith("T_")]]
+        chosen = sorted(CLASSES)
         seeds = [ctx.seed, ctx.seed + 101, ctx.seed + 202]
+    # small queries (<= 7 classes per SMT call): z3's running time on big conjunctions of table lookups is erratic
+    groups = [chosen[i:i + 7] for i in range(0, len(chosen), 7)]
     jobs = []
     dl = ctx.sub("apalache-lemmas")
     jobs.append(lambda: ("lemma", None, run_apalache(ctx, dl, "Apa_RoundTime", None, "LemmaInit", "LemmaNext", "Lemmas")))
@@ -173,7 +175,7 @@ def run(ctx, monitors):
         for gi, grp in enumerate(groups):
             dd = ctx.sub("apalache-witness-%d-%d" % (sd, gi))
             jobs.append((lambda dd=dd, grp=grp, sd=sd: ("wit", (dd, grp), run_apalache(
-                ctx, dd, "ApaQ_RoundTime", witness_module(grp, sd), "QInit", "QNext", "NoWitness"))))
+                ctx, dd, "ApaQ_RoundTime", witness_module(grp, sd), "QInit", "QNext", "NoWitness", timeout=400))))
     import concurrent.futures as cf
     pool = cf.ThreadPoolExecutor(max_workers=3)
     futs = [pool.submit(j) for j in jobs]      # Apalache runs while TLC explores the design configurations
@@ -204,7 +206,7 @@ def run(ctx, monitors):
             # e.g. a class has no member with this seed's residues: retry once without diversification
             ctx.notes.append("witness query %s: %s with seed residues, retried without" % (os.path.basename(dd), outcome))
             d2 = ctx.sub("apalache-witness-retry")
-            outcome, st, out = run_apalache(ctx, d2, "ApaQ_RoundTime", witness_module(grp, None), "QInit", "QNext", "NoWitness")
+            outcome, st, out = run_apalache(ctx, d2, "ApaQ_RoundTime", witness_module(grp, None), "QInit", "QNext", "NoWitness", timeout=400)
         if outcome != "violation":
             ctx.inconclusive.append("Apalache produced no boundary witnesses for %s (%s):\n%s" % (grp, outcome, out[-1500:]))
             continue
